@@ -15,7 +15,7 @@ def link_fault_items(rng, timeout_ns, prev_keys, version, agent_cfg, lat):
     t = lat
     for _ in range(n_bad):
         t += gen.latency(rng, 1000, max(2000, timeout_ns // 8))
-        kind = rng.choice(["rid", "rid", "community-or-user", "msgid-or-version", "stale", "truncate", "dup-late", "engine", "reflect", "request-pdu"])
+        kind = rng.choice(["rid", "rid", "community-or-user", "msgid-or-version", "stale", "truncate", "dup-late", "engine", "reflect", "request-pdu", "stray-report"])
         it = {"k": "genuine", "delay_ns": t}
         if kind == "rid":
             it["rewrite"] = {"request-id": rng.choice(["prev", "zero", "plus1", "xor1", "neg", "bit31", "bit32", "hi", rng.randrange(2**31)])}
@@ -48,6 +48,14 @@ def link_fault_items(rng, timeout_ns, prev_keys, version, agent_cfg, lat):
             it["copies"] = rng.randint(2, 3)
         elif kind == "reflect":
             it = {"k": "reflect", "delay_ns": t}
+        elif kind == "stray-report":
+            # a Report that is not for this session's request: other (or empty) user name, other msgID or
+            # engine id (v3); other community (v1/v2c). Unauthenticated, as discovery-time Reports are.
+            it = {"k": "custom", "pdu": "report", "delay_ns": t, "varbinds": [["1.3.6.1.6.3.15.1.1.%d.0" % rng.randint(1, 6), ["counter32", rng.randrange(2**32)]]]}
+            if version == "v3":
+                it["rewrite"] = dict(rng.choice([{"user": ""}, {"user": ""}, {"user": b"other".hex()}, {"msg-id": "xor1"}, {"msg-id": "prev"}, {"engine-id": "0102030405"}]), noauth=1)
+            else:
+                it["rewrite"] = {"community": rng.choice([b"other".hex(), b"".hex()])}
         elif kind == "request-pdu":
             # somebody else's request (or a confused agent): a request-type PDU with a foreign id
             it["rewrite"] = {"pdu-type": rng.choice([0xA0, 0xA1, 0xA5]), "request-id": rng.choice(["xor1", "plus1", "zero", "prev"])}
@@ -74,7 +82,7 @@ class C04(Prop):
     rule = (
         "plans: 1-2 sessions x 1-4 (thorough: up to 8) consecutive get/get_many requests, each reply scripted from "
         "{deliver, drop, duplicate, late, reorder, stale, rewrite request-id/community/version/msgID/user/engine-id, truncate, reflect}; "
-        "agent stamps every value with the serial of the request it answers. non-trivial = at least one link fault or rewrite fired "
+        "agent stamps every value with the serial of the request it answers. also stray Reports (empty / foreign user, msgID, engine id, community) and the oracle match-left-unread (a matching reply that reached the socket behind skipped datagrams well before the deadline and was never read). non-trivial = at least one link fault or rewrite fired "
         "while a request was outstanding; distinct = distinct abstract trace (event kinds, sessions, outcome classes, fault kinds)"
     )
     quick_runs = 30000
@@ -211,8 +219,9 @@ class C04(Prop):
                     T = run.sess_cfg[s]["timeout_ns"]
                     margin = 50_000_000 + 20 * run.plan.get("recv_cost_ns", 0)
                     enq = _enq(run)
+                    before = _consumed_before(run).get((s, res["i"]), ())
                     for did, d in run.dgrams.items():
-                        if d["s"] != s or did not in enq or did in ex["rx"]:
+                        if d["s"] != s or did not in enq or did in ex["rx"] or did in before:
                             continue
                         if not (ex["t"] <= enq[did] <= ex["t"] + T - margin):
                             continue
@@ -229,6 +238,20 @@ def _enq(run):
     m = getattr(run, "_enq_map", None)
     if m is None:
         m = run._enq_map = {ev[3]: ev[2] for ev in run.sim.hist if ev[0] == "enq"}
+    return m
+
+
+def _consumed_before(run):
+    """(session, op index) -> datagram ids already consumed when that call started (history order)."""
+    m = getattr(run, "_consumed_before", None)
+    if m is None:
+        m = run._consumed_before = {}
+        seen = set()
+        for ev in run.sim.hist:
+            if ev[0] == "call":
+                m[(ev[1], ev[2])] = frozenset(seen)
+            elif ev[0] == "rx":
+                seen.add(ev[3])
     return m
 
 
